@@ -1016,7 +1016,7 @@ func wrapOnce(c *core.Ctx) {
 		if sameVar {
 			v := astx.ObjOf(info, stmt.Lhs[0])
 			ast.Inspect(fd.Body, func(n ast.Node) bool {
-				if id, ok := n.(*ast.Ident); ok && id.Pos() > stmt.End() && info.Uses[id] == v {
+				if id, ok := n.(*ast.Ident); ok && info.Uses[id] == v && !astx.Contains(stmt, id) && astx.Precedes(fd.Body, stmt, id) {
 					usedAfter = true
 				}
 				return true
